@@ -17,19 +17,22 @@ Canon(v) == v.id                                  \* what JCS keeps of a value
 MHash(v, a) == ModelHash(Canon(v), a)
 
 Supported == {256, 512}
-Codes == {256, 512, 3256, 160, 0, 9999}           \* sha2-256, sha2-512, sha3-256, sha1, identity, unknown
+\* sha2-256, sha2-512, sha3-256, sha1, identity, unknown, and two registered two-byte codes whose low byte is that of
+\* sha2-256 (0x1012 sha2-256-trunc254-padded, 0xb212 blake2b-144)
+Codes == {256, 512, 3256, 160, 0, 9999, 4114, 45586}
 
 \* encoded strings that are not the model hash of anything under a supported algorithm
 BadClasses == {"bad_base64url_char", "padded", "empty", "not_a_multihash", "wrong_length_field",
                "truncated_digest", "trailing_bytes", "unsupported_sha3", "unsupported_sha1", "unknown_code",
-               "short_digest_supported_code"}
+               "short_digest_supported_code", "unsupported_two_byte_code"}
 
 \* classes the multihash decoder can read: they have a prefix, so a code is reported
-Decodable(c) == c \in {"unsupported_sha3", "unsupported_sha1", "unknown_code", "short_digest_supported_code"}
+Decodable(c) == c \in {"unsupported_sha3", "unsupported_sha1", "unknown_code", "short_digest_supported_code", "unsupported_two_byte_code"}
 CodeOf(c, a) == CASE c = "wellformed" -> a
                   [] c = "unsupported_sha3" -> 3256
                   [] c = "unsupported_sha1" -> 160
                   [] c = "unknown_code" -> 9999
+                  [] c = "unsupported_two_byte_code" -> 4114
                   [] c = "short_digest_supported_code" -> a
 
 Rels == {"same", "reserialized", "modified"}
